@@ -26,10 +26,13 @@ SPEC = {
         "covered), the events satisfy the order hypothesis, and the bookkeeping reproduces the reported list exactly. How verify_regexp picks the "
         "end of a regexp piece (one per atom hit) is observed; for the pieces run by the FastVM whose atoms have no backward code K checks that it is "
         "the end the abstract piece matcher picks (one end per start: the shortest for a lazy pattern, the longest for a greedy one), the reading "
-        "that is refuted for completeness; which end is reported per start is proved for lazy chains (the shortest, ChainEndProofs) and refuted "
-        "as 'the longest' for greedy ones (the end of the last closing piece match in arrival order stays: undocumented, accepted)",
+        "that is refuted for completeness; which end is reported per start is proved: the shortest closing end for lazy chains (ChainEndProofs), the longest for "
+        "greedy ones (ChainCompleteProofs.chain_greedy_longest; true since commit a09b6a08, before it MatchList::add overwrote the end without comparing)",
         "the Thompson/PikeVM/FastVM engines, Teddy and Aho-Corasick are not modelled: they are tied to the specification only by the "
         "differential streams (every reported match checked by genuine_b, every required start looked for)",
+        "MatchList::add replaces the end of a stored match only by a larger one, in both arms (commit a09b6a08), and the literal family tracks with "
+        "replace_if_longer = true: of several sub-patterns matching at one start the longest wins whatever the order of the atom hits (both modelled, "
+        "add_keeps_longest_holds proved; the model follows the implementation exactly in streams (a) and (d))",
         "Vec growth policy and slice::binary_search_by are trusted std behaviour (modelled literally; search_std_eq proves the abstraction used)",
         "completeness is demanded for starts whose genuine lengths are all within re::DEFAULT_SCAN_LIMIT and while the pattern has fewer than "
         "max_matches_per_pattern matches; generated buffers are <= 300 bytes, so the scan limit is never the reason for a miss in K",
